@@ -1364,6 +1364,7 @@ fn main() {
             // what the application sees before the operation (C02); getters only, before the log is reset
             LOOKUPS.with(|c| c.set(0));
             let display_pre = catch_unwind(AssertUnwindSafe(|| s.ed.display())).ok();
+            let alts_pre: Vec<String> = s.conv_log.borrow().last().map(|c| c.2.iter().map(|p| p.iter().map(|iv| &*iv.str).collect()).collect()).unwrap_or_default();
             let len_pre = s.ed.len();
             s.conv_log.borrow_mut().clear();
             let st_ix = match pre.as_bytes()[0] {
@@ -1528,7 +1529,7 @@ fn main() {
                         cand_pre: cand_pre.as_ref(), cand_post: cand_post.as_ref(),
                         outcome: "ok", no_word_pre: no_word_pre.as_deref(), no_word_post: no_word_post.as_deref(), getter_fail,
                         display_pre: display_pre.as_deref(), display_post: display_post.as_deref(),
-                        len_pre, len_post: s.ed.len(), commit_post: &commit_post, conv: &conv_step,
+                        len_pre, len_post: s.ed.len(), commit_post: &commit_post, conv: &conv_step, alts_pre: &alts_pre,
                     };
                     // the properties, evaluated directly on the real editor (one module per property)
                     oracle_c02::check(&mut out, &step);
@@ -1567,7 +1568,7 @@ fn main() {
                         cand_pre: cand_pre.as_ref(), cand_post: None,
                         outcome: how, no_word_pre: no_word_pre.as_deref(), no_word_post: None, getter_fail: None,
                         display_pre: display_pre.as_deref(), display_post: None,
-                        len_pre, len_post: len_pre, commit_post: "", conv: &conv_step,
+                        len_pre, len_post: len_pre, commit_post: "", conv: &conv_step, alts_pre: &alts_pre,
                     };
                     oracle_c01::check(&mut out, &step);
                     if how == "hang" {
